@@ -24,7 +24,7 @@ def project(rec):
     i = rec.rfind(" D[")
     return rec if i < 0 else rec[:i]
 
-_TO = re.compile(r"timeout - T\[[^\]]*\]")
+_TO = re.compile(r"timeout - T\[.*?\](?= D\[-\]| ;; |$)")   # trace entries may contain brackets (printed arrays)
 
 def norm_timeout(ans):
     """The two sides bound work differently (calls vs steps): of a text that did not
